@@ -8,7 +8,7 @@ import FitProps.C07
 `C08_chunk_indep_ops` (framing level).
 
 `Link_dechist_eq_api_partial`: for every list of `Decode`, `DecodeWithContext` (context live or cancelled before the call),
-`PeekFileHeader`, `Discard`, `Next` the per-call results of (D') on the exact-n reader ARE those of (C) on the same bytes, in the
+`PeekFileHeader`, `Discard`, `Next`, then possibly one `CheckIntegrity`, the per-call results of (D') on the exact-n reader ARE those of (C) on the same bytes, in the
 common observable `LinkH.Tok`. The full statement
 (`Link_dechist_eq_api_statement`, every call of (D')'s alphabet) is kept as a `def`: see notes/links.md for what is missing.
 Corollaries: C07's conclusion and chunk independence of what (C) returns, over ANY clean fragmentation and buffer size.
@@ -29,10 +29,12 @@ def Link_dechist_eq_api_statement : Prop :=
       (runExact (DecHist.history o.chk fuelCi ops) bs).res.map tokH = (toksC (Api.fresh o bs) (ops.map apiOp)).take n
 
 /-- **(C) = (D') call by call.** For every list of `Decode`, `DecodeWithContext` (context live, or cancelled before the call),
-`PeekFileHeader`, `Discard` and `Next` (`linked`: the alphabet of (D') without `PeekFileId`, `DecodeWithContext` cancelled while
-it runs and `CheckIntegrity`), every option set and every byte stream in the common domain of `Link_decprog_eq_api` (bytes < 256,
+`PeekFileHeader`, `Discard` and `Next`, possibly followed by one `CheckIntegrity` (`linkedL`: the alphabet of (D') without
+`PeekFileId` and `DecodeWithContext` cancelled while it runs; (D')'s program ends with `CheckIntegrity` — the reader has to be
+re-seeked —, `fuelCi`, the bound on the sequences it walks, exceeds the stream length), every option set and every byte stream in the common domain of `Link_decprog_eq_api` (bytes < 256,
 below 4 GiB, `FacOK`, `facBtOK`, `facFdOK`): what each call returns in (D')'s history program run on the exact-n reader — FIT
-header and file CRC, file header, nil, `Next`'s bool, error class, and the sticky answers once the decoder is dead — is what the
+header and file CRC, file header, nil, `Next`'s bool, the verdict and count of `CheckIntegrity`, error class, and the sticky
+answers once the decoder is dead — is what the
 same call returns in (C)'s `run` on the same bytes. By the state correspondence `LinkH.Rel` carried through every call
 (`LinkH.run_link`): remaining stream, sticky error, the `sync.Once` and its header, position in the sequence, running checksum,
 `d.n ≠ 0`, empty definition / description tables and accumulator at a sequence boundary, and (D')'s events being those of the
@@ -40,9 +42,9 @@ completed `Decode` calls; inside `Decode` the record loop is `messages_link` tra
 (`LinkH.messagesH_link`). -/
 theorem Link_dechist_eq_api_partial (o : Opts) (bs : List Nat) (ops : List DecHist.Op) (fuelCi : Nat) (hb : DecApi.IsBytes bs)
     (hlen : bs.length < 4294967296) (hfac : FacOK o.fac) (hbt : facBtOK o.fac = true) (hfd : facFdOK o.fac = true)
-    (hops : ∀ op ∈ ops, linked op = true) :
+    (hfu : bs.length < fuelCi) (hops : linkedL ops = true) :
     (runExact (DecHist.history o.chk fuelCi ops) bs).res.map tokH = toksC (Api.fresh o bs) (ops.map apiOp) := by
-  have := (run_link o hfac hbt hfd fuelCi ops [] { chk := o.chk } (Api.fresh o bs) (Rel.new o bs hb hlen) hops).1
+  have := (run_link o hfac hbt hfd fuelCi ops [] { chk := o.chk } (Api.fresh o bs) (Rel.new o fuelCi bs hb hlen hfu) hops).1
   rw [show (Api.fresh o bs).d.rest = bs from rfl] at this
   simpa [DecHist.history] using this
 
@@ -54,9 +56,9 @@ reader: one entry per completed sequence, in order (`foldDone`). So the values a
 observation — the object of `C08_chunk_indep_ops`. -/
 theorem Link_dechist_values_partial (o : Opts) (bs : List Nat) (ops : List DecHist.Op) (fuelCi : Nat) (hb : DecApi.IsBytes bs)
     (hlen : bs.length < 4294967296) (hfac : FacOK o.fac) (hbt : facBtOK o.fac = true) (hfd : facFdOK o.fac = true)
-    (hops : ∀ op ∈ ops, linked op = true) :
+    (hfu : bs.length < fuelCi) (hops : linkedL ops = true) :
     foldDone o (runExact (DecHist.history o.chk fuelCi ops) bs).evs = fitsC (Api.fresh o bs) (ops.map apiOp) := by
-  have := (run_link o hfac hbt hfd fuelCi ops [] { chk := o.chk } (Api.fresh o bs) (Rel.new o bs hb hlen) hops).2
+  have := (run_link o hfac hbt hfd fuelCi ops [] { chk := o.chk } (Api.fresh o bs) (Rel.new o fuelCi bs hb hlen hfu) hops).2
   rw [show (Api.fresh o bs).d.rest = bs from rfl] at this
   simpa [DecHist.history] using this
 
@@ -66,7 +68,7 @@ read buffer does not panic, every call returns what (C)'s `run` returns on the b
 listener calls of (C)'s successful `Decode` calls are what `apiOf`'s reconstruction gives on the events of that run. -/
 theorem Link_C08_ops_values_partial (o : Opts) (ops : List DecHist.Op) (fuelCi : Nat) (b : RB) (s : Sched) (size : Int)
     (hs : Clean s) (hb : ReadBuffer.IsBytes (bytesOf s)) (hlen : (bytesOf s).length < 4294967296) (hfac : FacOK o.fac)
-    (hbt : facBtOK o.fac = true) (hfd : facFdOK o.fac = true) (hops : ∀ op ∈ ops, linked op = true) :
+    (hbt : facBtOK o.fac = true) (hfd : facFdOK o.fac = true) (hfu : (bytesOf s).length < fuelCi) (hops : linkedL ops = true) :
     ∃ out, runRB (DecHist.history o.chk fuelCi ops) (b.reset s size) = .done out ∧
       out.res.map tokH = toksC (Api.fresh o (bytesOf s)) (ops.map apiOp) ∧
       foldDone o out.evs = fitsC (Api.fresh o (bytesOf s)) (ops.map apiOp) := by
@@ -74,22 +76,22 @@ theorem Link_C08_ops_values_partial (o : Opts) (ops : List DecHist.Op) (fuelCi :
     (reset_inv b s size) hs hb
   refine ⟨out, e, ?_, ?_⟩
   · rw [← tokH_merge_list, m, tokH_merge_list]
-    exact Link_dechist_eq_api_partial o _ ops fuelCi hb hlen hfac hbt hfd hops
+    exact Link_dechist_eq_api_partial o _ ops fuelCi hb hlen hfac hbt hfd hfu hops
   · have hev0 := congrArg DecHist.Out.evs m
     have hev : out.evs = (runExact (DecHist.history o.chk fuelCi ops) (bytesOf s)).evs := hev0  -- `merge` keeps the events
     rw [hev]
-    exact Link_dechist_values_partial o _ ops fuelCi hb hlen hfac hbt hfd hops
+    exact Link_dechist_values_partial o _ ops fuelCi hb hlen hfac hbt hfd hfu hops
 
 /-- … hence any two clean fragmentations, buffer sizes and previous buffer states give the same per-call results -/
 theorem Link_C08_ops_values_partial_two (o : Opts) (ops : List DecHist.Op) (fuelCi : Nat) (b₁ b₂ : RB) (s₁ s₂ : Sched)
     (size₁ size₂ : Int) (h₁ : Clean s₁) (h₂ : Clean s₂) (hb : ReadBuffer.IsBytes (bytesOf s₁)) (heq : bytesOf s₁ = bytesOf s₂)
     (hlen : (bytesOf s₁).length < 4294967296) (hfac : FacOK o.fac) (hbt : facBtOK o.fac = true) (hfd : facFdOK o.fac = true)
-    (hops : ∀ op ∈ ops, linked op = true) :
+    (hfu : (bytesOf s₁).length < fuelCi) (hops : linkedL ops = true) :
     ∃ o₁ o₂, runRB (DecHist.history o.chk fuelCi ops) (b₁.reset s₁ size₁) = .done o₁ ∧
       runRB (DecHist.history o.chk fuelCi ops) (b₂.reset s₂ size₂) = .done o₂ ∧ o₁.res.map tokH = o₂.res.map tokH ∧
       foldDone o o₁.evs = foldDone o o₂.evs := by
-  obtain ⟨o₁, e₁, m₁⟩ := Link_C08_ops_values_partial o ops fuelCi b₁ s₁ size₁ h₁ hb hlen hfac hbt hfd hops
-  obtain ⟨o₂, e₂, m₂⟩ := Link_C08_ops_values_partial o ops fuelCi b₂ s₂ size₂ h₂ (heq ▸ hb) (heq ▸ hlen) hfac hbt hfd hops
+  obtain ⟨o₁, e₁, m₁⟩ := Link_C08_ops_values_partial o ops fuelCi b₁ s₁ size₁ h₁ hb hlen hfac hbt hfd hfu hops
+  obtain ⟨o₂, e₂, m₂⟩ := Link_C08_ops_values_partial o ops fuelCi b₂ s₂ size₂ h₂ (heq ▸ hb) (heq ▸ hlen) hfac hbt hfd (heq ▸ hfu) hops
   exact ⟨o₁, o₂, e₁, e₂, by rw [m₁.1, m₂.1, heq], by rw [m₁.2, m₂.2, heq]⟩
 
 theorem apiOp_small (ops : List DecHist.Op) : ∀ op ∈ ops.map apiOp, OpSmall op := by
@@ -105,13 +107,13 @@ with all their values that the reconstruction `apiOf` rebuilds from that run's e
 `Decode` calls (`fitsC`: a sub-list of the run whose every entry the specification demands — second conjunct, C07's `Agree`). -/
 theorem Link_C07_any_reader_partial (o : Opts) (ops : List DecHist.Op) (fuelCi : Nat) (b : RB) (s : Sched) (size : Int)
     (hs : Clean s) (hsm : Small (bytesOf s)) (hf : FacOK o.fac) (hbt : facBtOK o.fac = true) (hfd : facFdOK o.fac = true)
-    (hno : C07.NoOverrun o (bytesOf s) (ops.map apiOp)) (hops : ∀ op ∈ ops, linked op = true) :
+    (hno : C07.NoOverrun o (bytesOf s) (ops.map apiOp)) (hfu : (bytesOf s).length < fuelCi) (hops : linkedL ops = true) :
     ∃ out, runRB (DecHist.history o.chk fuelCi ops) (b.reset s size) = .done out ∧
       (∀ p ∈ (out.res.map tokH).zip (specRun (Spec.fresh o (bytesOf s)) (ops.map apiOp)), ∀ r, p.2 = some r → p.1 = tokC r.1) ∧
       (∀ p ∈ (DecApi.run (Api.fresh o (bytesOf s)) (ops.map apiOp)).zip (specRun (Spec.fresh o (bytesOf s)) (ops.map apiOp)),
         ∀ r, p.2 = some r → p.1 = r) ∧
       foldDone o out.evs = fitsC (Api.fresh o (bytesOf s)) (ops.map apiOp) := by
-  obtain ⟨out, e, m, mv⟩ := Link_C08_ops_values_partial o ops fuelCi b s size hs hsm.1 hsm.2 hf hbt hfd hops
+  obtain ⟨out, e, m, mv⟩ := Link_C08_ops_values_partial o ops fuelCi b s size hs hsm.1 hsm.2 hf hbt hfd hfu hops
   refine ⟨out, e, ?_, C07.C07_history_indep_partial o (bytesOf s) (ops.map apiOp) hsm hf (apiOp_small ops) hno, mv⟩
   have hag := C07.C07_history_indep_partial o (bytesOf s) (ops.map apiOp) hsm hf (apiOp_small ops) hno
   rw [m]
@@ -129,6 +131,13 @@ example : (runExact (DecHist.history true 3 [.peekHeader, .next, .decode, .next,
       toksC (Api.fresh { fac := stdFactory } C04.sampleFit) [.peekHeader, .next, .decode, .next, .decode] ∧
     ((toksC (Api.fresh { fac := stdFactory } C04.sampleFit) [.peekHeader, .next, .decode, .next, .decode]).map fun t =>
       match t with | .fit _ _ => 1 | .bool true => 2 | .bool false => 3 | .err .eof => 4 | .header _ => 5 | _ => 0) = [5, 2, 1, 3, 4] := by
+  decide +kernel
+
+/-- non-vacuity with a final `CheckIntegrity` after a peek: one valid sequence -/
+example : linkedL [.peekHeader, .next, .checkIntegrity] = true ∧
+    (runExact (DecHist.history true 47 [.peekHeader, .next, .checkIntegrity]) C04.sampleFit).res.map tokH =
+      toksC (Api.fresh {} C04.sampleFit) [.peekHeader, .next, .checkIntegrity] ∧
+    (toksC (Api.fresh {} C04.sampleFit) [.peekHeader, .next, .checkIntegrity]).drop 1 = [.bool true, .integrity 1 none] := by
   decide +kernel
 
 /-- … and the values: one FIT with two messages, rebuilt from (D')'s events -/
